@@ -163,9 +163,11 @@ type speccScn struct {
 	a      int
 	nhosts int
 	ctx    bool     // the statement carries a cancelable context
+	pre    bool     // … which is cancelled BEFORE the statement is executed
 	plan   []string // steps tried first (skipped when not enabled): L<i> C<i>:<fate> D<i> X
 	okPct  int      // how often a held request is answered with success
 	xPct   int      // how often (per step) the caller's context is cancelled
+	cons   int      // the statement's consistency level
 }
 
 const (
@@ -184,6 +186,7 @@ type cExec struct {
 	held     *memcluster.Request
 	lastRes  string
 	answered bool // the harness has answered the request in flight
+	reqCons  int  // consistency level of the request in flight
 }
 
 // runSpecCancel returns the trace op: specc <kind> <idem> <policy> <a> <nhosts> <events> <requests> <Attempts()> <attempt numbers>
@@ -234,6 +237,11 @@ func runSpecCancel(c speccScn, r *vh.Rng) string {
 	}
 	defer cancel()
 	if st.q != nil {
+		st.q = st.q.Consistency(gocql.Consistency(c.cons))
+	} else {
+		st.b.SetConsistency(gocql.Consistency(c.cons))
+	}
+	if st.q != nil {
 		st.q = st.q.Observer(both)
 		if c.ctx {
 			st.q = st.q.WithContext(ctx)
@@ -248,15 +256,24 @@ func runSpecCancel(c speccScn, r *vh.Rng) string {
 	if c.ctx {
 		ctxTok = "c"
 	}
-	head := fmt.Sprintf("specc %s %s %s %d %d %s", c.kind, c.idem, c.policy, c.a, c.nhosts, ctxTok)
-	errc := make(chan error, 1)
-	go func() { errc <- st.exec("e") }()
-
+	if c.ctx && c.pre {
+		ctxTok = "p"
+	}
+	head := fmt.Sprintf("specc %s %s %s %d %d %s %d", c.kind, c.idem, c.policy, c.a, c.nhosts, ctxTok, c.cons)
 	var exs []*cExec
 	byGid := map[int64]*cExec{}
 	var events []string
 	haveRes := false
 	cancelled := false
+	if c.ctx && c.pre {
+		// the context is done before the executor starts: it still launches the main execution and returns the
+		// context's error without waiting for it; the speculative executions are launched only if the ticker wins
+		cancel()
+		cancelled = true
+		events = append(events, "X")
+	}
+	errc := make(chan error, 1)
+	go func() { errc <- st.exec("e") }()
 	var heldAfterEnd []*memcluster.Request
 	idx := func(x *cExec) int {
 		for i, y := range exs {
@@ -296,7 +313,7 @@ func runSpecCancel(c speccScn, r *vh.Rng) string {
 				events = append(events, fmt.Sprintf("?s%d", hostIdx[e.host]))
 				return
 			}
-			x.state, x.held, x.host, x.pending, x.answered = cFlight, e.req, e.host, "", false
+			x.state, x.held, x.host, x.pending, x.answered, x.reqCons = cFlight, e.req, e.host, "", false, e.req.Consistency
 		case "obs":
 			if x := byGid[e.gid]; x != nil {
 				x.lastRes = resTok(e.err)
@@ -411,7 +428,7 @@ func runSpecCancel(c speccScn, r *vh.Rng) string {
 			x.state = cDone
 			return "e"
 		case x.state == cFlight:
-			return fmt.Sprintf("s%d", hostIdx[x.host])
+			return fmt.Sprintf("s%d@%d", hostIdx[x.host], x.reqCons)
 		}
 		// an attempt that no server saw: let the execution go on; on a context that is done it ends now
 		res := x.lastRes
@@ -506,8 +523,11 @@ func runSpecCancel(c speccScn, r *vh.Rng) string {
 
 	// the executions the policy allows arrive at their first NextHost call (main at once, the others on the ticker)
 	want := maxExecutions(specIdempotent(c.idem), c.a)
+	if cancelled {
+		want = 1
+	}
 	await(2*time.Second, func() bool { return len(exs) >= want })
-	await(3*delay+time.Millisecond, func() bool { return len(exs) > want }) // one more than allowed would show up now
+	await(3*delay+time.Millisecond, func() bool { return len(exs) > maxExecutions(specIdempotent(c.idem), c.a) }) // one more than allowed would show up now
 	steps := 0
 	for steps < 200 {
 		drain()
@@ -648,7 +668,7 @@ func runSpecCancel(c speccScn, r *vh.Rng) string {
 		events = append(events, "stuck")
 	}
 	events = append(events, fmt.Sprintf("A%d", len(exs)))
-	return fmt.Sprintf("%s %s %d %d %s", head, strings.Join(events, ","), atomic.LoadInt64(&nreq), st.attempts(), rec.ranges())
+	return fmt.Sprintf("%s %s %d %d %s %d", head, strings.Join(events, ","), atomic.LoadInt64(&nreq), st.attempts(), rec.ranges(), st.consistency())
 }
 
 // kfBatchLoser (proposed finding KF-C13-2): a logged batch, two executions in flight, the first is answered: the
@@ -657,13 +677,13 @@ func runSpecCancel(c speccScn, r *vh.Rng) string {
 func kfBatchLoser() string {
 	r := vh.NewRng(1)
 	op := runSpecCancel(speccScn{kind: "bl", idem: "1", policy: "simple:2", a: 1, nhosts: 3,
-		plan: []string{"L0", "L1", "C0:ok", "D0", "C1:e9", "D1"}, okPct: 100}, r)
+		plan: []string{"L0", "L1", "C0:ok", "D0", "C1:e9", "D1"}, okPct: 100, cons: 1}, r)
 	f := strings.Fields(op)
-	if len(f) < 8 {
+	if len(f) < 9 {
 		return op
 	}
 	after, n := false, 0
-	for _, t := range strings.Split(f[7], ",") {
+	for _, t := range strings.Split(f[8], ",") {
 		if strings.HasPrefix(t, "R:") {
 			after = true
 		} else if after && strings.Contains(t, ":s") {
@@ -705,21 +725,23 @@ func speccGrid() []speccScn {
 	}
 	for ki, kind := range []string{"q", "bl", "bu", "bc"} {
 		for pi, p := range plans {
-			c := speccScn{kind: kind, idem: "1", a: 2, nhosts: 5 + (ki+pi)%2, ctx: true, plan: p, okPct: 20, xPct: 0}
+			c := speccScn{kind: kind, idem: "1", a: 2, nhosts: 5 + (ki+pi)%2, ctx: true, plan: p, okPct: 20, xPct: 0, cons: consCodes[(ki+pi)%len(consCodes)]}
 			if kind != "q" {
 				c.idem = strings.Repeat("1", 1+(ki+pi)%4)
 			}
 			// kinds: 1 Retry, 2 Rethrow, 4 Rethrow, 5 Retry, 7 Retry, 9 RetryNextHost
-			c.policy = []string{"custom:6:urtutrurun", "down:1.1.1.1.1", "custom:4:urtutrurun"}[(ki+pi)%3]
+			c.policy = []string{"custom:6:urtutrurun", "down:4.6.1.2.10", "custom:4:urtutrurun"}[(ki+pi)%3]
 			out = append(out, c)
 		}
+		// the context is done before the statement is executed
+		out = append(out, speccScn{kind: kind, idem: "1", a: 2, nhosts: 3, ctx: true, pre: true, policy: "simple:2", okPct: 20, cons: 4})
 	}
 	return out
 }
 
 func genSpecc(r *vh.Rng) speccScn {
 	c := speccScn{kind: []string{"q", "bl", "bu", "bc"}[r.Intn(4)], idem: "1", a: 1 + r.Intn(3), nhosts: 1 + r.Intn(6),
-		ctx: r.Intn(3) > 0, okPct: []int{0, 15, 30, 60}[r.Intn(4)], xPct: []int{0, 4, 10}[r.Intn(3)]}
+		cons: consCodes[r.Intn(len(consCodes))], ctx: r.Intn(3) > 0, pre: r.Intn(8) == 0, okPct: []int{0, 15, 30, 60}[r.Intn(4)], xPct: []int{0, 4, 10}[r.Intn(3)]}
 	if c.kind != "q" {
 		c.idem = strings.Repeat("1", 1+r.Intn(5))
 	}
@@ -728,8 +750,12 @@ func genSpecc(r *vh.Rng) speccScn {
 		c.policy = "none"
 	case 1:
 		c.policy = fmt.Sprintf("simple:%d", r.Intn(4))
-	case 2:
-		c.policy = "down:" + strings.TrimSuffix(strings.Repeat("1.", 1+r.Intn(4)), ".")
+	case 2, 3:
+		var lv []string
+		for n := 1 + r.Intn(4); n > 0; n-- {
+			lv = append(lv, fmt.Sprint(consCodes[r.Intn(len(consCodes))]))
+		}
+		c.policy = "down:" + strings.Join(lv, ".")
 	default:
 		tbl := make([]byte, 10)
 		for i := range tbl {
